@@ -470,7 +470,15 @@ func (c *Ctx) ctorArgTypes(general *ssa.Function, opConst string, v ssa.Value, d
 					if _, isConst := c.resolve(call.Call.Args[1], nil).(*ssa.Const); isConst {
 						continue
 					}
-					return nil, false // non-constant operator: any type may arrive
+					// the operator is a parameter of a helper that forwards it (BOOST/FUZZY through one generic
+					// helper): the call counts when some caller of the helper passes this operator constant
+					if ops, ok := c.forwardedOps(f, call.Call.Args[1]); ok {
+						if !contains(ops, opConst) {
+							continue
+						}
+					} else {
+						return nil, false // non-constant operator: any type may arrive
+					}
 				}
 				sites++
 				var arg ssa.Value
@@ -493,6 +501,50 @@ func (c *Ctx) ctorArgTypes(general *ssa.Function, opConst string, v ssa.Value, d
 		}
 	}
 	return out, sites > 0
+}
+
+// forwardedOps: v is a parameter of f; the operator constants f's static callers in the library pass for it
+// (ok=false if v is not a parameter, f has no caller, or some caller passes a non-constant).
+func (c *Ctx) forwardedOps(f *ssa.Function, v ssa.Value) ([]string, bool) {
+	p, isP := c.resolve(v, nil).(*ssa.Parameter)
+	if !isP {
+		return nil, false
+	}
+	idx := -1
+	for i, q := range f.Params {
+		if q == p {
+			idx = i
+		}
+	}
+	if idx < 0 {
+		return nil, false
+	}
+	set := map[string]bool{}
+	n := 0
+	for _, g := range c.Funcs {
+		if !inLib(g) {
+			continue
+		}
+		for _, b := range g.Blocks {
+			for _, in := range b.Instrs {
+				call, ok := in.(*ssa.Call)
+				if !ok || call.Call.StaticCallee() == nil || idx >= len(call.Call.Args) {
+					continue
+				}
+				callee := call.Call.StaticCallee()
+				if callee != f && callee.Origin() != f && (f.Origin() == nil || callee.Origin() != f.Origin()) {
+					continue
+				}
+				n++
+				k, isC := c.resolve(call.Call.Args[idx], nil).(*ssa.Const)
+				if !isC {
+					return nil, false
+				}
+				set[c.constName(k)] = true
+			}
+		}
+	}
+	return setKeys(set), n > 0
 }
 
 // valueTypes: dynamic types of an interface-typed value; a parameter of a thin constructor is
